@@ -137,8 +137,19 @@ def _direct(R, rng, defn, b, cse, ctx):
                 g = g / max(np.linalg.norm(g), 1e-12) * mag
                 z = hx + L @ g
             rd = ekf.make_reading(sname, **{r: float(z[i, 0]) for i, r in enumerate(readings)})
+            if pi % 3 == 1:
+                # the reading as a ready-made column in the sensor's own layout (make_reading(key, data=...)),
+                # as the scikit-learn adapter does
+                lay_r = monitors.names_of(rd)
+                col = np.array([[float(z[readings.index(n), 0])] for n in lay_r])
+                rd = ekf.make_reading(sname, data=col)
+                R.stats.inc("readings_made_from_data")
             try:
-                res = ekf.sensor_model(st, cov, sensor_key=sname, sensor_reading=rd)
+                if pi % 3 == 2:
+                    res = ekf.sensor_model(sensor_reading=rd, sensor_key=sname, covariance=cov, state=st)
+                    R.stats.inc("keyword_argument_calls")
+                else:
+                    res = ekf.sensor_model(st, cov, sensor_key=sname, sensor_reading=rd)
             except Exception as e:  # noqa: BLE001
                 R.add([K.V(K.exc_key("sensor_model", e), f"sensor_model raised for a valid input (m={m}): {K.exc_text(e)}",
                            defn=defn, point=pt, covariance=P.tolist(), sensor=sname,
